@@ -89,7 +89,7 @@ func init() {
 		o.pins("cue/parser", "parser.parseBinaryExpr", "parser.parseBinaryExprTail", "parser.parseUnaryExpr")
 		// v1 formatter: the expression arms of exprRaw + the spacing helpers
 		o.pinCases("cue/format", "formatter.exprRaw", "BinaryExpr", "UnaryExpr", "ParenExpr", "Ident", "BasicLit")
-		o.pins("cue/format", "formatter.binaryExpr", "walkBinary", "cutoff", "diffPrec", "reduceDepth", "mayCombine",
+		o.pins("cue/format", "formatter.binaryExpr", "walkBinary", "cutoff", "diffPrec", "reduceDepth", "mayCombine", "unaryOpMergesWithOperand",
 			"formatter.expr", "formatter.expr0", "formatter.expr1")
 		// v2 formatter
 		o.pins("internal/pretty", "converter.unaryExpr", "converter.binaryExprPrec", "converter.binaryOperand",
